@@ -9,7 +9,7 @@ func init() {
 			"that the provision is reduced exactly under epoch ≥ reduction period + last reduction epoch together with storing the minter and the new last-reduction epoch, that nothing is minted before the start epoch, and that developer rewards are burned from the mint account, paid from the vesting account under a supply-offset bracket.",
 		NotCovered:  []string{"mint account empty / supply grows by exactly the provision as numbers", "long-run schedule over epochs"},
 		Assumptions: []string{"bank keeper semantics", "epoch hook is invoked once per epoch (C17)"},
-		MinObl:      33,
+		MinObl:      36,
 		Run:         runC18,
 	})
 }
@@ -21,6 +21,9 @@ func runC18(c *rules.Ctx) {
 	c.Let("MINTER", "mintkeeper.Keeper.GetMinter(k,ctx)")
 	// the epochs module sees the keeper's verdict: a mint epoch that aborted half way is reported (and rolled back)
 	c.CheckedCall("x/mint/keeper.Hooks.AfterEpochEnd", "mintkeeper.Keeper.AfterEpochEnd", []string{"h.k", "ctx", "epochIdentifier", "epochNumber"}, "the hook wrapper runs the keeper's epoch step for the same epoch and fails when it fails", "")
+	epochsHookContainmentRules(c)
+	// genesis: the imported provision is kept unless it is nil or exactly zero as a decimal (a sub-unit provision is still a provision)
+	c.BranchOn(K+"InitGenesis", "sdkmath.LegacyDec.IsZero(data.Minter.EpochProvisions)", []string{"sdk.Coin.IsZero(minttypes.Minter.EpochProvision(...))", "sdkmath.Int.IsZero(minttypes.Minter.EpochProvision(...).Amount)", "sdkmath.Int.IsZero(sdkmath.LegacyDec.TruncateInt(_))"}, "the reset-to-genesis test looks at the decimal provisions, never at the truncated coin")
 	// schedule
 	c.OnlyWhen(H, "mintkeeper.Keeper.mintCoins|mintkeeper.Keeper.DistributeMintedCoin|mintkeeper.Keeper.SetMinter", "eq(epochIdentifier, {PARAMS}.EpochIdentifier)", "only the configured mint epoch mints")
 	c.OnlyWhen(H, "mintkeeper.Keeper.mintCoins|mintkeeper.Keeper.DistributeMintedCoin", "not(lt(epochNumber, {PARAMS}.MintingRewardsDistributionStartEpoch))", "nothing is minted before the start epoch")
